@@ -70,16 +70,21 @@ CHECKS["C06"] = {
     "technique": "exhaustive bounded enumeration of programs with duplicated / near-duplicated statements x every insertion order x tick "
                  "histories on the real engine; differential across orders + reference interpreter + node-count lower bound",
     "design_ref": "DESIGN.md 2/C06",
-    "parts": [{"name": "twins", "exe": "c01_order", "sources": ["c01_order.cpp"], "sub": "c06", "shards": 16}],
+    "parts": [{"name": "twins", "exe": "c01_order", "sources": ["c01_order.cpp"], "sub": "c06", "shards": 16},
+              {"name": "ports", "exe": "c06_ports", "sources": ["c06_ports.cpp"], "shards": 16}],
     "rule": "every base DAG program of <= N statements (vocabulary of C01 without inlining) with one statement duplicated in each of four "
             "ways — exact twin (same definition, inputs, scalars: may be shared), scalar variant, input variant, passive() marker on one "
             "input (each must stay a distinct node) — plus a combiner reading both and a sink on every port (twin sinks have equal keys and "
             "must stay distinct); x EVERY insertion order via delayed_binding; x every tick pattern (T=2) of every source. Oracle: every order "
             "gives the same observation signature (differential) equal to the reference interpreter; nodes().size() >= structurally distinct "
-            "value nodes + sinks; typed twins (replay<TS<Int>>(k) vs replay<TS<Bool>>(k)) stay distinct. non-trivial = distinct (program, history).",
-    "bounds": {"quick": "base programs <= 3 statements (+ twin + combiner = 5), all 5! orders, T=2",
+            "value nodes + sinks; typed twins (replay<TS<Int>>(k) vs replay<TS<Bool>>(k)) stay distinct. non-trivial = distinct (program, history). "
+            "ports part: src -> Tracker (ordinary output and recordable state of the same fixed shape {a,b}, bundle and 2-element list, different "
+            "contents) -> two consumers each reading the ordinary output or the recordable state, whole or one leaf; ALL 24 permutations of the four "
+            "wiring statements (a consumer or the producer wired before its source exists goes through delayed_binding<S> and is bound when the source "
+            "appears) x every history of {no tick, odd, even} over T cycles; every permutation must give the streams of the reference model.",
+    "bounds": {"quick": "base programs <= 3 statements (+ twin + combiner = 5), all 5! orders, T=2; ports: T=4",
                "thorough": "base programs <= 4 statements (+ twin + combiner = 6), all 6! orders, T=2"},
-    "min_counters": {"quick": {"nontrivial": 1000, "twins.exact_twin_graphs_shared": 100, "twins.typed_twin_cases": 1}},
+    "min_counters": {"quick": {"nontrivial": 1000, "twins.exact_twin_graphs_shared": 100, "twins.typed_twin_cases": 1, "ports.consumer_first_cases": 50000}},
     "assumptions": COMMON_ASSUMPTIONS + ["Sharing of exact twins is allowed but not required; value-node records of twins are compared as sets, sink records as multisets."],
     "level_text": "Complete enumeration of the bounded twin-program x order x history space; order independence is decided differentially "
                   "between all orders of the same program and against an independent reference.",
